@@ -492,9 +492,11 @@ def _merge_justified(ctx, F, b, R, bb, args, lits, rule, site, span):
             if not p_ok and p[0] == 'field' and p[2] == 'source_idx':
                 # the source of an edge taken from the feasible collection is the node whose children were enumerated
                 mp = label_of_edge_collection(F, ('field', p[1], 'label'))
-                p_ok = mp is not None and s(mp[2]) == s(f2[0])
+                p_ok = mp is not None and (s(mp[2]) == s(f2[0]) or (s(mp[0]) == s(f2[1]) and mp[1] <= FEASIBLE_STATES))
             same = node == s(i2[1][2][1]) and p_ok
-            if ml is not None and ml[1] <= FEASIBLE_STATES and s(ml[2]) == s(f2[0]) and same:
+            same_coll = ml is not None and (s(ml[2]) == s(f2[0]) or
+                                            (s(ml[0]) == s(f2[1]) and edge_collection(F, f2[0]) is not None and ml[1] == edge_collection(F, f2[0])[1]))
+            if ml is not None and ml[1] <= FEASIBLE_STATES and same_coll and same:
                 return 'J3: decision skipped under |children with feasible state| == 1 and |children with Infeasible state| == K-1; the forwarded child is the feasible one'
             ctx.bad(rule, site, 'the forwarded child is not the unique feasible child of the node whose other children are Infeasible', span)
             return 'bad'
@@ -1469,17 +1471,34 @@ def edge_collection(F, e):
             break
     if is_call(e, 'Tree::children') and len(e[2]) == 2:
         return e, _state_universe(F), 'child'
-    if is_call(e, 'Iterator::filter') and len(e[2]) == 2 and e[2][1][0] == 'closure':
+    if is_call(e, 'Iterator::filter', 'Iterator::find') and len(e[2]) == 2 and e[2][1][0] == 'closure':
+        # (`find` hands out one element of what `filter` with the same test would keep)
         sub = edge_collection(F, e[2][0])
-        if sub is None or sub[2] != 'child':
+        if sub is None:
             return None
         cb, rets = closure_ret(F, e[2][1])
         if cb is None or not rets or len(rets) != 1:
             return None
-        st = _state_formula(F, rets[0], ('param', cb.arg_names()[-1]))
+        prm_ = ('param', cb.arg_names()[-1])
+        if sub[2] == 'child':
+            st = _state_formula(F, rets[0], prm_)
+        else:
+            # elements are records made by a preceding map: a test of one of their flag components (possibly negated)
+            r_ = s_(rets[0])
+            neg = False
+            while r_[0] == 'un' and r_[1] == 'Not':
+                neg = not neg
+                r_ = r_[2]
+            st = None
+            if isinstance(sub[2], tuple) and sub[2][0] == 'tuple' and r_[0] == 'field' and r_[1] == prm_ and r_[2].isdigit() and int(r_[2]) < len(sub[2][1]):
+                k = sub[2][1][int(r_[2])]
+                if isinstance(k, tuple) and k[0] == 'flag':
+                    st = (_state_universe(F) - set(k[1])) if neg else set(k[1])
+            if st is None:
+                return None
         if st is None:
             return sub   # a filter on something else only narrows the collection
-        return sub[0], sub[1] & st, 'child'
+        return sub[0], sub[1] & st, sub[2]
     if is_call(e, 'Iterator::map') and len(e[2]) == 2 and e[2][1][0] == 'closure':
         sub = edge_collection(F, e[2][0])
         if sub is None or sub[2] != 'child':
@@ -1495,10 +1514,20 @@ def edge_collection(F, e):
         if is_call(x, 'Itertools::partition_map') and len(x[2]) == 2 and x[2][1][0] == 'closure':
             sub = edge_collection(F, x[2][0])
             cb = F.closure(x[2][1][1])
-            if sub is None or sub[2] != 'child' or cb is None:
+            if sub is None or cb is None:
+                return None
+            tuple_kinds = sub[2][1] if (isinstance(sub[2], tuple) and sub[2][0] == 'tuple') else None
+            if sub[2] != 'child' and tuple_kinds is None:
                 return None
             Rc = _R(cb)
             prm = ('param', cb.arg_names()[-1])
+
+            def comp_kind(e_):
+                # component j of the mapped tuple the closure receives
+                e_ = s_(e_)
+                if tuple_kinds is not None and e_[0] == 'field' and e_[1] == prm and e_[2].isdigit() and int(e_[2]) < len(tuple_kinds):
+                    return tuple_kinds[int(e_[2])]
+                return None
             states, kinds = set(), set()
             for bb, v, _sp in _ret_defs(cb, Rc):
                 v = s_(v)
@@ -1509,13 +1538,18 @@ def edge_collection(F, e):
                     if l[0] == 'is' and s_(l[1]) == ('field', ('field', prm, 'target_value'), 'state'):
                         here &= set(l[2])
                     elif l[0] in ('true', 'false'):
-                        st = _state_formula(F, l[1], prm)
+                        ck = comp_kind(l[1])
+                        if isinstance(ck, tuple) and ck[0] == 'flag':
+                            st = set(ck[1])   # a state test computed by the preceding map and carried in the tuple
+                        else:
+                            st = _state_formula(F, l[1], prm) if tuple_kinds is None else None
                         if st is None:
                             return None
                         here &= st if l[0] == 'true' else _state_universe(F) - st
                 if (v[1][2] == 'Left') == (side == 0):
                     states |= here
-                    kinds.add(_elem_kind(v[2][0], prm, F))
+                    pk = comp_kind(v[2][0])
+                    kinds.add(pk if pk is not None else (_elem_kind(v[2][0], prm, F) if tuple_kinds is None else None))
             if len(kinds) != 1 or None in kinds:
                 return None
             return sub[0], sub[1] & states, kinds.pop()
@@ -1554,7 +1588,11 @@ def label_of_edge_collection(F, l):
             break
     path.reverse()
     coll = None
-    if is_call(e, 'Iterator::next', '[T]::first', '[T]::last', 'Vec::pop', 'Itertools::exactly_one') and e[2]:
+    while is_call(e, 'Option::unwrap', 'Option::expect') and e[2]:
+        e = e[2][0]
+    if is_call(e, 'Iterator::find') and len(e[2]) == 2:
+        coll = e   # the found element is an element of the collection filtered by the same test
+    elif is_call(e, 'Iterator::next', '[T]::first', '[T]::last', 'Vec::pop', 'Itertools::exactly_one') and e[2]:
         coll = e[2][0]
     elif e[0] == 'index':
         coll = e[1]
@@ -1591,7 +1629,7 @@ def length_fact(F, lit):
         return None
     lhs, rhs = lit[1][2], lit[1][3]
     coll = None
-    if is_call(lhs, 'Vec::len', '[T]::len') and lhs[2]:
+    if is_call(lhs, 'Vec::len', '[T]::len', 'Iterator::count') and lhs[2]:
         coll = lhs[2][0]
     elif lhs[0] == 'un' and lhs[1] == 'PtrMetadata':
         coll = lhs[2]
